@@ -648,31 +648,70 @@ func (c *Catalogue) buildCodec(in *Inst, r *Rng) {
 	}
 	switch in.Spec.Fam {
 	case "decodebad":
-		data = append([]byte(nil), s.Data...)
-		switch r.Intn(3) {
-		case 0: // truncate
-			if len(data) > 0 {
-				cut := r.Intn(len(data))
-				if len(data) > 64 && r.Bool() {
-					cut = r.Intn(64)
-				}
-				data = data[:cut]
-			}
-		case 1: // flip bytes
-			for k := 0; k < 1+r.Intn(4) && len(data) > 0; k++ {
-				i := r.Intn(len(data))
-				if len(data) > 64 && r.Bool() {
-					i = r.Intn(64)
-				}
-				data[i] ^= byte(1 + r.Intn(255))
-			}
-		default: // truncate and flip
-			if len(data) > 4 {
-				data = data[:4+r.Intn(len(data)-4)]
-				data[3+r.Intn(len(data)-3)] ^= 0xff
-			}
+		// several damaged copies per operation: truncations (biased to the first 64
+		// octets, where the header and the mandatory IEs are), byte flips, both. The
+		// outcome of each is whatever the sequential baseline gives; the point is that
+		// the error paths are executed by several tasks at once.
+		base := data
+		if !s.OK || r.Chance(30) {
+			base = append([]byte(nil), s.Data...)
 		}
-		fallthrough
+		var inputs [][]byte
+		for k := 0; k < 6; k++ {
+			d := append([]byte(nil), base...)
+			switch r.Intn(5) {
+			case 0, 1, 2: // truncate
+				if len(d) > 0 {
+					cut := r.Intn(len(d))
+					if len(d) > 64 && r.Chance(70) {
+						cut = r.Intn(64)
+					}
+					d = d[:cut]
+				}
+			case 3: // flip bytes
+				for j := 0; j < 1+r.Intn(4) && len(d) > 0; j++ {
+					i := r.Intn(len(d))
+					if len(d) > 64 && r.Bool() {
+						i = r.Intn(64)
+					}
+					d[i] ^= byte(1 + r.Intn(255))
+				}
+			default: // truncate and flip
+				if len(d) > 4 {
+					d = d[:4+r.Intn(len(d)-4)]
+					d[3+r.Intn(len(d)-3)] ^= 0xff
+				}
+			}
+			inputs = append(inputs, d)
+		}
+		in.Args = []interface{}{&inputs}
+		in.Do = func() []interface{} {
+			var out []interface{}
+			for i := range inputs {
+				func() {
+					defer func() {
+						if p := recover(); p != nil {
+							if vsimrt.IsAbort(p) || vsimrt.IsRunaway(p) {
+								panic(p)
+							}
+							out = append(out, fmt.Sprint("panic:", p))
+						}
+					}()
+					m := nas.NewMessage()
+					err := m.PlainNasDecode(&inputs[i])
+					out = append(out, err, m)
+				}()
+			}
+			if r0 := len(inputs); r0 > 0 && in.Spec.Seed%16 == 0 {
+				// the nil / empty corner of the entry point
+				m := nas.NewMessage()
+				out = append(out, m.PlainNasDecode(nil))
+				empty := []byte{}
+				out = append(out, m.PlainNasDecode(&empty))
+			}
+			return out
+		}
+		return
 	case "decode":
 		in.Args = []interface{}{&data}
 		in.Do = func() []interface{} {
@@ -1274,6 +1313,8 @@ func perturbArgs(args []reflect.Value, r *Rng) {
 		b := []byte(l.v.String())
 		i := r.Intn(len(b))
 		switch {
+		case r.Chance(25):
+			b[i] = "xZ -"[r.Intn(4)]
 		case b[i] >= '0' && b[i] <= '8':
 			b[i]++
 		case b[i] == '9':
